@@ -674,7 +674,10 @@ CU(a) ==
            \cup {O(SelectSeq(base, LAMBDA e : e.k \notin opt))} \cup {O(SelectSeq(base, LAMBDA e : e.k # o)) : o \in opt}
       [] OTHER -> VS(a)
 MayAccept(b, v) == \E o \in Val(b, v, None, "write") : o.ok
+(* v sits exactly on a tolerance boundary the property does not decide (accepted or out of range) *)
+Undecided(b, v) == MayAccept(b, v) /\ RE \in Val(b, v, None, "write")
 Subset(a, b) == \A v \in CU(a) : MayAccept(b, v)
+SubsetSure(a, b) == \A v \in CU(a) : MayAccept(b, v) /\ ~Undecided(b, v)
 (* the pairings compatible() is written to support *)
 Supported(a, b) ==
     CASE a.k = "double" -> b.k \in {"double", "scaled"}
@@ -686,7 +689,7 @@ Supported(a, b) ==
       [] a.k = "struct" -> b.k = "struct" /\ Names(a) \subseteq Names(b)
                            /\ \A x \in 1 .. Len(a.mem) : Supported(a.mem[x].t, TypeOf(b, a.mem[x].n))
 (* allowed verdicts of a.compatible(b): TRUE = passes *)
-AllowedPass(a, b) == IF ~Subset(a, b) THEN {FALSE} ELSE IF Supported(a, b) THEN {TRUE} ELSE {TRUE, FALSE}
+AllowedPass(a, b) == IF ~Subset(a, b) THEN {FALSE} ELSE IF Supported(a, b) /\ SubsetSure(a, b) THEN {TRUE} ELSE {TRUE, FALSE}
 
 (* --------------------------------------------------------------- type catalogue *)
 Dbl(lo, hi, a, r) == [k |-> "double", min |-> lo, max |-> hi, abs |-> a, rel |-> r]
